@@ -27,8 +27,8 @@ Lemma tr_onData_eq s n :
   0 <= n -> 0 <= unacked s -> unacked s + n < 4294967296 ->
   tr_onData n s =
   if unacked s + n <? climit s / 4
-  then (0, mkst (limit s) (pd s) (pu s) (delta s) (climit s) (unacked s + n) (dead s))
-  else (unacked s + n, mkst (limit s) (pd s) (pu s) (delta s) (climit s) 0 (dead s)).
+  then (0, mkst (limit s) (pd s) (pu s) (delta s) (climit s) (unacked s + n) (dead s) (iws s))
+  else (unacked s + n, mkst (limit s) (pd s) (pu s) (delta s) (climit s) 0 (dead s) (iws s)).
 Proof. intros. unfold tr_onData. rewrite u32_small by lia. reflexivity. Qed.
 
 Lemma in_onData_eq s n :
@@ -36,7 +36,7 @@ Lemma in_onData_eq s n :
   0 <= limit s + delta s < 4294967296 ->
   in_onData n s =
   (pd s + n + pu s >? limit s + delta s,
-   mkst (limit s) (pd s + n) (pu s) (delta s) (climit s) (unacked s) (dead s)).
+   mkst (limit s) (pd s + n) (pu s) (delta s) (climit s) (unacked s) (dead s) (iws s)).
 Proof.
   intros. unfold in_onData. rewrite (u32_small (pd s + n)) by lia.
   rewrite (u32_small (pd s + n + pu s)) by lia. rewrite (u32_small (limit s + delta s)) by lia.
@@ -50,8 +50,8 @@ Lemma in_onRead_eq s n :
   if pd s =? 0 then (0, s) else
   let m := Z.min n (delta s) in
   if pu s + (n - m) >=? limit s / 4
-  then (pu s + (n - m), mkst (limit s) (pd s - n) 0 (delta s - m) (climit s) (unacked s) (dead s))
-  else (0, mkst (limit s) (pd s - n) (pu s + (n - m)) (delta s - m) (climit s) (unacked s) (dead s)).
+  then (pu s + (n - m), mkst (limit s) (pd s - n) 0 (delta s - m) (climit s) (unacked s) (dead s) (iws s))
+  else (0, mkst (limit s) (pd s - n) (pu s + (n - m)) (delta s - m) (climit s) (unacked s) (dead s) (iws s)).
 Proof.
   intros. unfold in_onRead. destruct (pd s =? 0) eqn:E0; [reflexivity|].
   rewrite (u32_small (pd s - n)) by lia. cbv zeta.
@@ -71,7 +71,7 @@ Lemma in_maybeAdjust_eq s n0 :
   let n := Z.min n0 2147483647 in
   if n - pd s >? limit s - (pd s + pu s) then
     let d := if limit s + n >? 2147483647 then 2147483647 - limit s else n in
-    (d, mkst (limit s) (pd s) (pu s) d (climit s) (unacked s) (dead s))
+    (d, mkst (limit s) (pd s) (pu s) d (climit s) (unacked s) (dead s) (iws s))
   else (0, s).
 Proof.
   intros. unfold in_maybeAdjust. consts.
@@ -100,7 +100,8 @@ Definition SInv (s : st) (L : led) : Prop :=
   (pu s < limit s / 4 \/ pu s = 0) /\
   delta s <= want L /\
   (adjusted L = false -> delta s = 0) /\
-  (bumped L = false -> limit s + delta s <= 2147483647).
+  (bumped L = false -> limit s + delta s <= 2147483647) /\
+  iws s = limit s.
 
 Definition Inv (s : st) (L : led) : Prop :=
   dead s = ldead L /\
@@ -173,7 +174,7 @@ Lemma step_ping i s L o s' :
   Inv s L -> stepk s OPing = (o, s') ->
   exists L', lstepk L OPing o = Some L' /\ Inv s' L' /\ okc (clauses_k i L OPing o L').
 Proof.
-  intros HI H. destruct s as [l p u d cl un dd]. destruct L as [a r ca cr lm clm dv rb w ld aj bm sk cd].
+  intros HI H. destruct s as [l p u d cl un dd iw]. destruct L as [a r ca cr lm clm dv rb w ld aj bm sk cd].
   cbn in H. inversion H; subst; clear H.
   unfold Inv in HI; cbn in HI. destruct HI as (Hd & Hcl & Hclr & Hcw & Hun & Hun2 & Hw & Hur & Hsk & Hcd & HS).
   subst dd cl sk cd. destruct ld.
@@ -185,30 +186,39 @@ Lemma step_new i s L n o s' :
   Inv s L -> opk_ok L (ONew n) = true -> stepk s (ONew n) = (o, s') ->
   exists L', lstepk L (ONew n) o = Some L' /\ Inv s' L' /\ okc (clauses_k i L (ONew n) o L').
 Proof.
-  intros HI Hok H. destruct s as [l p u d cl un dd]. destruct L as [a r ca cr lm clm dv rb w ld aj bm sk cd].
+  intros HI Hok H. destruct s as [l p u d cl un dd iw]. destruct L as [a r ca cr lm clm dv rb w ld aj bm sk cd].
   unfold Inv in HI; cbn in HI. destruct HI as (Hd & Hcl & Hclr & Hcw & Hun & Hun2 & Hw & Hur & Hsk & Hcd & HS).
   subst dd cl sk cd. cbn in Hok. consts.
-  unfold stepk, tr_newLimit, in_newLimit in H. rewrite (u32_small n) in H by lia. cbn in H.
+  assert (E0 : (n =? 0) = false) by lia.
+  unfold stepk, tr_newLimit, in_newLimit, set_iws in H. rewrite (u32_small n) in H by lia. cbn in H.
   destruct ld; cbn in H.
-  - rewrite (u32_small (n - clm)) in H by lia. inversion H; subst; clear H. finish.
-  - rewrite (u32_small (n - clm)) in H by lia. inversion H; subst; clear H.
-    specialize (HS eq_refl). unfold SInv in HS; cbn in HS.
-    destruct HS as (H1 & H2 & H3 & H4 & H5 & H6 & H7 & H8 & H9 & H10 & H11 & H12 & H13). subst l.
-    destruct aj, bm; finish.
+  - destruct (n >? iw) eqn:Eg; cbn in H; destruct (n <=? clm) eqn:Ec; cbn in H;
+      try rewrite (u32_small (n - clm)) in H by lia;
+      try replace (n - clm >? 0) with true in H by lia;
+      change (0 >? 0) with false in H; cbn in H; inversion H; subst; clear H;
+      (eexists; split; [cbn; ceqb; rewrite ?E0; cbn; reflexivity|]; split; [inv_goal | okc_goal]).
+  - specialize (HS eq_refl). unfold SInv in HS; cbn in HS.
+    destruct HS as (H1 & H2 & H3 & H4 & H5 & H6 & H7 & H8 & H9 & H10 & H11 & H12 & H13 & H14). subst l iw.
+    destruct (n >? lm) eqn:Eg; cbn in H; destruct (n <=? clm) eqn:Ec; cbn in H;
+      try rewrite (u32_small (n - clm)) in H by lia;
+      try replace (n - clm >? 0) with true in H by lia;
+      change (0 >? 0) with false in H; cbn in H; inversion H; subst; clear H;
+      destruct aj, bm;
+      (eexists; split; [cbn; ceqb; rewrite ?E0; cbn; reflexivity|]; split; [inv_goal | okc_goal]).
 Qed.
 
 Lemma step_req i s L n o s' :
   Inv s L -> opk_ok L (OReq n) = true -> stepk s (OReq n) = (o, s') ->
   exists L', lstepk L (OReq n) o = Some L' /\ Inv s' L' /\ okc (clauses_k i L (OReq n) o L').
 Proof.
-  intros HI Hok H. destruct s as [l p u d cl un dd]. destruct L as [a r ca cr lm clm dv rb w ld aj bm sk cd].
+  intros HI Hok H. destruct s as [l p u d cl un dd iw]. destruct L as [a r ca cr lm clm dv rb w ld aj bm sk cd].
   unfold Inv in HI; cbn in HI. destruct HI as (Hd & Hcl & Hclr & Hcw & Hun & Hun2 & Hw & Hur & Hsk & Hcd & HS).
   subst dd cl sk cd. cbn in Hok. consts.
   unfold stepk in H. rewrite (u32_small n) in H by lia. cbn [dead] in H.
   destruct ld.
   - cbn in H. inversion H; subst; clear H. finish.
   - specialize (HS eq_refl). unfold SInv in HS; cbn in HS.
-    destruct HS as (H1 & H2 & H3 & H4 & H5 & H6 & H7 & H8 & H9 & H10 & H11 & H12 & H13). subst l.
+    destruct HS as (H1 & H2 & H3 & H4 & H5 & H6 & H7 & H8 & H9 & H10 & H11 & H12 & H13 & H14). subst l.
     assert (d = 0) by lia. subst d.
     rewrite in_maybeAdjust_eq in H by (cbn; lia). cbn in H.
     brkH H; inversion H; subst; clear H; finish.
@@ -218,14 +228,14 @@ Lemma step_read i s L k o s' :
   Inv s L -> opk_ok L (ORead k) = true -> stepk s (ORead k) = (o, s') ->
   exists L', lstepk L (ORead k) o = Some L' /\ Inv s' L' /\ okc (clauses_k i L (ORead k) o L').
 Proof.
-  intros HI Hok H. destruct s as [l p u d cl un dd]. destruct L as [a r ca cr lm clm dv rb w ld aj bm sk cd].
+  intros HI Hok H. destruct s as [l p u d cl un dd iw]. destruct L as [a r ca cr lm clm dv rb w ld aj bm sk cd].
   unfold Inv in HI; cbn in HI. destruct HI as (Hd & Hcl & Hclr & Hcw & Hun & Hun2 & Hw & Hur & Hsk & Hcd & HS).
   subst dd cl sk cd. cbn in Hok. consts.
   unfold stepk in H. cbn [dead] in H.
   destruct ld.
   - cbn in H. inversion H; subst; clear H. finish.
   - specialize (HS eq_refl). unfold SInv in HS; cbn in HS.
-    destruct HS as (H1 & H2 & H3 & H4 & H5 & H6 & H7 & H8 & H9 & H10 & H11 & H12 & H13). subst l.
+    destruct HS as (H1 & H2 & H3 & H4 & H5 & H6 & H7 & H8 & H9 & H10 & H11 & H12 & H13 & H14). subst l.
     rewrite (u32_small k) in H by lia.
     rewrite in_onRead_eq in H by (cbn; lia). cbn in H.
     brkH H; inversion H; subst; clear H; destruct aj, bm; finish.
@@ -236,7 +246,7 @@ Lemma step_data i s L size pad o s' :
   exists L', lstepk L (OData size pad) o = Some L' /\ Inv s' L' /\
              okc (clauses_k i L (OData size pad) o L').
 Proof.
-  intros HI Hok H. destruct s as [l p u d cl un dd]. destruct L as [a r ca cr lm clm dv rb w ld aj bm sk cd].
+  intros HI Hok H. destruct s as [l p u d cl un dd iw]. destruct L as [a r ca cr lm clm dv rb w ld aj bm sk cd].
   unfold Inv in HI; cbn in HI. destruct HI as (Hd & Hcl & Hclr & Hcw & Hun & Hun2 & Hw & Hur & Hsk & Hcd & HS).
   subst dd cl sk cd. cbn in Hok. consts.
   unfold stepk in H. consts. rewrite (u32_small size) in H by lia. rewrite (u32_small pad) in H by lia.
@@ -245,7 +255,7 @@ Proof.
   destruct ld.
   - destruct (un + size <? clm / 4) eqn:E; cbn in H; inversion H; subst; clear H; finish.
   - specialize (HS eq_refl). unfold SInv in HS; cbn in HS.
-    destruct HS as (H1 & H2 & H3 & H4 & H5 & H6 & H7 & H8 & H9 & H10 & H11 & H12 & H13). subst l.
+    destruct HS as (H1 & H2 & H3 & H4 & H5 & H6 & H7 & H8 & H9 & H10 & H11 & H12 & H13 & H14). subst l.
     destruct (size =? 0) eqn:Es.
     + destruct (un + size <? clm / 4) eqn:E; cbn in H;
         inversion H; subst; clear H; finish.
@@ -288,12 +298,11 @@ Qed.
 
 (* ---------- bridge: the predicate evaluated on implementation traces holds on model traces ---------- *)
 
-Lemma op_ok_pre s L op : Inv s L -> op_ok L op = true -> op_pre L op && negb (cdead L) = true.
+Lemma op_ok_pre s L op : Inv s L -> op_ok L op = true -> op_ok L op && negb (cdead L) = true.
 Proof.
-  intros HI. unfold Inv in HI.
+  intros HI H. unfold Inv in HI.
   destruct HI as (Hd & Hcl & Hclr & Hcw & Hun & Hun2 & Hw & Hur & Hsk & Hcd & HS).
-  rewrite Hcd. unfold op_ok, op_pre. destruct (decode_op op) as [k|]; [|discriminate].
-  destruct k; cbn; intros H; rewrite ?H; try reflexivity. consts. lia.
+  rewrite Hcd, H. reflexivity.
 Qed.
 
 Lemma trace_ok : forall ops s L i obs,
@@ -371,7 +380,7 @@ Proof.
   intros H. apply fin_inv in H. unfold Inv in H.
   destruct H as (Hd & Hcl & Hclr & Hcw & Hun & Hun2 & Hw & Hur & Hsk & Hcd & HS). split; [exact Hcw|].
   intros Hl. specialize (HS Hl). unfold SInv in HS.
-  destruct HS as (H1 & H2 & H3 & H4 & H5 & H6 & H7 & H8 & H9 & H10 & H11 & H12 & H13). repeat split; lia.
+  destruct HS as (H1 & H2 & H3 & H4 & H5 & H6 & H7 & H8 & H9 & H10 & H11 & H12 & H13 & H14). repeat split; lia.
 Qed.
 
 (* A DATA frame is accepted iff it fits in the window the peer was given. *)
@@ -384,14 +393,14 @@ Lemma data_verdict cfg ops s L size pad o s' :
      (err = 1 /\ dead s' = true /\ win L < size /\ swu = 0)).
 Proof.
   intros Hf Hld Hok Hsz H. apply fin_inv in Hf. rename Hf into HI.
-  destruct s as [l p u d cl un dd]. destruct L as [a r ca cr lm clm dv rb w ld aj bm sk cd].
+  destruct s as [l p u d cl un dd iw]. destruct L as [a r ca cr lm clm dv rb w ld aj bm sk cd].
   unfold Inv in HI; cbn in HI. destruct HI as (Hd & Hcl & Hclr & Hcw & Hun & Hun2 & Hw & Hur & Hsk & Hcd & HS).
   cbn in Hld. subst ld dd cl sk cd. cbn in Hok.
   unfold stepk in H. consts. rewrite (u32_small size) in H by lia. rewrite (u32_small pad) in H by lia.
   replace ((pad >? size) || (size >=? 16777216)) with false in H by lia.
   rewrite tr_onData_eq in H by (cbn; dlia). cbn [unacked climit limit pd pu delta dead] in H.
   specialize (HS eq_refl). unfold SInv in HS; cbn in HS.
-  destruct HS as (H1 & H2 & H3 & H4 & H5 & H6 & H7 & H8 & H9 & H10 & H11 & H12 & H13). subst l.
+  destruct HS as (H1 & H2 & H3 & H4 & H5 & H6 & H7 & H8 & H9 & H10 & H11 & H12 & H13 & H14). subst l.
   replace (size =? 0) with false in H by lia.
   unfold win in *; cbn in *.
   destruct (un + size <? clm / 4) eqn:E; cbn in H;
@@ -410,7 +419,7 @@ Proof.
   intros H Hl. apply fin_inv in H. unfold Inv in H.
   destruct H as (Hd & Hcl & Hclr & Hcw & Hun & Hun2 & Hw & Hur & Hsk & Hcd & HS).
   specialize (HS Hl). unfold SInv in HS.
-  destruct HS as (H1 & H2 & H3 & H4 & H5 & H6 & H7 & H8 & H9 & H10 & H11 & H12 & H13).
+  destruct HS as (H1 & H2 & H3 & H4 & H5 & H6 & H7 & H8 & H9 & H10 & H11 & H12 & H13 & H14).
   split; [lia|]. intros Hb. specialize (H13 Hb). lia.
 Qed.
 
@@ -422,7 +431,7 @@ Proof.
   intros H Hl He. apply fin_inv in H. unfold Inv in H.
   destruct H as (Hd & Hcl & Hclr & Hcw & Hun & Hun2 & Hw & Hur & Hsk & Hcd & HS).
   specialize (HS Hl). unfold SInv in HS.
-  destruct HS as (H1 & H2 & H3 & H4 & H5 & H6 & H7 & H8 & H9 & H10 & H11 & H12 & H13).
+  destruct HS as (H1 & H2 & H3 & H4 & H5 & H6 & H7 & H8 & H9 & H10 & H11 & H12 & H13 & H14).
   clear Hun2 Hcw Hclr. rewrite H1 in H10, H9, H8, H13, H6.
   assert (Hpd : pd s = 0) by lia. rewrite Hpd in *.
   split; [dlia|]. split; [dlia|]. split; [lia|]. lia.
@@ -434,12 +443,12 @@ Lemma large_read_granted cfg ops s L n o s' L' :
   Z.min (Z.min n 2147483647) (2147483647 - lim L' / 4) - (deliv L' - readb L') <= win L'.
 Proof.
   intros Hf Hld Hok H HL. apply fin_inv in Hf. rename Hf into HI.
-  destruct s as [l p u d cl un dd]. destruct L as [a r ca cr lm clm dv rb w ld aj bm sk cd].
+  destruct s as [l p u d cl un dd iw]. destruct L as [a r ca cr lm clm dv rb w ld aj bm sk cd].
   unfold Inv in HI; cbn in HI. destruct HI as (Hd & Hcl & Hclr & Hcw & Hun & Hun2 & Hw & Hur & Hsk & Hcd & HS).
   cbn in Hld. subst ld dd cl sk cd. cbn in Hok. consts.
   unfold stepk in H. rewrite (u32_small n) in H by lia. cbn [dead] in H.
   specialize (HS eq_refl). unfold SInv in HS; cbn in HS.
-  destruct HS as (H1 & H2 & H3 & H4 & H5 & H6 & H7 & H8 & H9 & H10 & H11 & H12 & H13). subst l.
+  destruct HS as (H1 & H2 & H3 & H4 & H5 & H6 & H7 & H8 & H9 & H10 & H11 & H12 & H13 & H14). subst l.
   assert (d = 0) by lia. subst d. clear Hun2 Hcw H12 H13.
   rewrite in_maybeAdjust_eq in H by (cbn; lia). cbn in H. unfold win in *. cbn in H9.
   brkH H; inversion H; subst; clear H; cbn in HL; inversion HL; subst; clear HL; cbn; dlia.
@@ -473,25 +482,27 @@ Proof.
   eexists. eexists. split; [vm_compute; reflexivity|]. vm_compute. repeat split; reflexivity.
 Qed.
 
-(* Configured connection window 1 MiB (InitialConnWindowSize; the dynamic window stays on and the
-   BDP estimator starts from 65535): the first BDP update updateFlowControl(131070) makes
-   trInFlow.newLimit return uint32(131070 - 1048576) = 4294049790, which is enqueued as the
-   increment of a connection-level WINDOW_UPDATE. *)
-Lemma conn_increment_refuted :
-  exists cfg ops s L, finp cfg ops = Some (s, L) /\ cdead L = true /\
-    run cfg ops = Some [[4294049790; 1; 131070; 131070; 0; 0; 0; 131070; 0]].
+(* updateFlowControl never emits an illegal connection WINDOW_UPDATE and never lowers a window *)
+Lemma new_limit_legal cfg ops s L n o s' :
+  fin cfg ops = Some (s, L) -> opk_ok L (ONew n) = true -> stepk s (ONew n) = (o, s') ->
+  exists cwu items sv rest, o = cwu :: items :: sv :: rest /\
+    ((items = 0 /\ cwu = 0 /\ climit s' = climit s) \/
+     (items = 1 /\ 1 <= cwu <= 2147483647 /\ climit s' = climit s + cwu)) /\
+    ((sv = 0 /\ limit s' = limit s /\ iws s' = iws s) \/
+     (sv = n /\ iws s < n /\ iws s' = n /\ limit s <= limit s')).
 Proof.
-  exists [65535; 1048576], [[4; 131070]].
-  eexists. eexists. split; [vm_compute; reflexivity|]. vm_compute. split; reflexivity.
-Qed.
-
-(* Configured stream window 1 MiB: 200000 bytes arrive and are read (no update: 200000 < 1 MiB/4);
-   a BDP update lowers the window to 131070 (SETTINGS decrease of 917506): the peer's window is
-   -68930; the next read request (5 bytes) is granted 5: still negative, nothing to read. *)
-Lemma shrink_stall_refuted :
-  exists cfg ops s L, finp cfg ops = Some (s, L) /\ ldead L = false /\ sshrunk L = true /\
-    deliv L = readb L /\ want L = 5 /\ win L = -68925.
-Proof.
-  exists [1048576; 65535], [[1; 200000; 0]; [2; 200000]; [3; 200000]; [4; 131070]; [2; 5]].
-  eexists. eexists. split; [vm_compute; reflexivity|]. vm_compute. repeat split; reflexivity.
+  intros Hf Hok H. apply fin_inv in Hf. rename Hf into HI.
+  destruct s as [l p u d cl un dd iw]. destruct L as [a r ca cr lm clm dv rb w ld aj bm sk cd].
+  unfold Inv in HI; cbn in HI. destruct HI as (Hd & Hcl & Hclr & Hcw & Hun & Hun2 & Hw & Hur & Hsk & Hcd & HS).
+  subst dd cl sk cd. cbn in Hok. consts.
+  unfold stepk, tr_newLimit, in_newLimit, set_iws in H. rewrite (u32_small n) in H by lia. cbn in H.
+  assert (Hlim : ld = false -> iw = l /\ 1 <= l).
+  { intros E. specialize (HS E). unfold SInv in HS; cbn in HS. lia. }
+  destruct ld; cbn in H;
+    (destruct (n >? iw) eqn:Eg; cbn in H; destruct (n <=? clm) eqn:Ec; cbn in H;
+     try rewrite (u32_small (n - clm)) in H by lia;
+     try replace (n - clm >? 0) with true in H by lia;
+     change (0 >? 0) with false in H; cbn in H; inversion H; subst; clear H;
+     do 4 eexists; (split; [reflexivity|]); cbn;
+     try (specialize (Hlim eq_refl)); (split; [first [left; lia | right; lia] | first [left; lia | right; lia]])).
 Qed.
